@@ -22,6 +22,14 @@ CLAIMED = {
    text="Differential runtime monitor against *os.File: the handle matrix (9 handle kinds x every call x argument classes around offset and size, each also after another handle grew or shrank the file; ~5700 scripts) and 20k (quick) / 200k (thorough) random scripts of up to 40/80 calls over 1..3 handles. After every call: n, bytes, success/failure with end-of-file normalised as io.Reader/io.ReaderAt allow (EOF flagged as early if bytes remain; short ReadAt with nil error flagged), every open handle's offset, handle Stat, and the file's fresh contents are compared with the os package.",
    note="Reference is *os.File on Linux tmpfs. Zero-length transfers and Seek/Stat on directory handles are compared by resulting state only (os does not consult the access mode for zero-length calls; directory seeking is OS-specific). keyvalue.FS over a plain Store runs single-handle scripts only (each handle owns a snapshot by the FileRecord contract). Known: directory handle Read reports EOF (F14).",
    technique="differential testing of handle call scripts against os.File with EOF normalisation and per-call state comparison"),
+ "C16": dict(level="exploration", design="4/C16",
+   text="Directories with 0,1,2,3,10,300,1200 children of mixed kinds (ground truth: what the harness created) are presented through nine FS kinds (mem, keyvalue over a plain Store, mount with mount-point children, Sub, cache with full/minimal store, tar with default/minimal destination, os.FS). The by-name listing is checked for completeness, duplicates, order and Info-vs-Stat agreement; a directory handle is read with systematic page-size sequences (1, 2, N-1, N, N+1, 10^9, mixed with 0/-1) and random ones against the fs.ReadDirFile contract (no empty page with nil error, io.EOF exactly at the end, n<=0 returns all remaining with nil); listing a regular file must fail with ErrNotDir.",
+   note="Directories are never mutated between pages. Mount-point children are compared by name and kind only. os.FS listing uses the host kernel's directory order.",
+   technique="runtime contract monitor for listings and paged directory reads against harness-known ground truth"),
+ "C17": dict(level="exploration", design="4/C17",
+   text="Closed-handle matrix: 9 FS kinds x 5 handle kinds x every ordered pair of the 11 methods called after Close (each must fail, never panic, and match ErrClosed wherever a closed *os.File does); sibling scripts record every other handle's offset and usability around each call; lifecycle histories (40/1500 per FS kind) interleave Remove/Rename/re-create of the path with writes through handles opened earlier and compare the set of existing names with the os package after every step.",
+   note="Reference is *os.File / os on Linux. Known: writing through a handle after Remove/Rename re-creates the old name (F20, keyed by handle operation).",
+   technique="runtime monitor of handle life-cycle (post-Close calls, sibling isolation, unlink-then-write) differential against os.File"),
 }
 NOT_YET = "monitor not built yet in this session (see DESIGN.md section 4 for the planned runtime monitor)"
 props = [json.loads(l)["id"] for l in open("/verif/properties.jsonl")]
